@@ -450,7 +450,8 @@ Definition cabs1 (z : bf * bf) : bf := add N (babs (fst z)) (babs (snd z)).
 Inductive aop :=
 | AT (z0 : bf * bf)
 | AR (degs : bf) (o : option (bf * bf))
-| AS (sx : bf) (sy : option bf) (o : bf * bf).
+| AS (sx : bf) (sy : option bf) (o : bf * bf)
+| AM (M : Mat3 bf).      (* transform(arc, tf), repaired branch (Model/Xform.v arc_transform_fixed) *)
 Definition radical_of (P : ArcP bf) : bf :=
   arc_radical_of N T false (a_start P) (a_radius P) (a_rotation P) (a_end P).
 (* radical = 0: u2 = -u1 and det_uv = 0 exactly in binary64 and in R (delta = +-180 by
@@ -476,6 +477,7 @@ Definition m_new (o : aop) (P : ArcP bf) : xres (ArcP bf) :=
   | AR degs None => XOk (arc_rotate N T degs (cs_of_degs T degs) (a_center P) P)
   | AR degs (Some og) => XOk (arc_rotate N T degs (cs_of_degs T degs) og P)
   | AS sx sy og => arc_scale N T sx sy og P
+  | AM M => match arc_transform_fixed N T M P with SArc Q => XOk Q | SBez _ => XAssert end
   end.
 Definition m_map (o : aop) (P : ArcP bf) (z : bf * bf) : bf * bf :=
   match o with
@@ -483,15 +485,24 @@ Definition m_map (o : aop) (P : ArcP bf) (z : bf * bf) : bf * bf :=
   | AR degs None => rotate_point N (cs_of_degs T degs) (a_center P) z
   | AR degs (Some og) => rotate_point N (cs_of_degs T degs) og z
   | AS sx _ og => cadd N (cscale N sx (csub N z og)) og
+  | AM M => tf_point N M z
   end.
-(* case: constructor arguments, op, size, refused by the implementation,
+Definition is_AM (o : aop) : bool := match o with AM _ => true | _ => false end.
+(* rotation of the new ellipse: compared modulo 180 degrees and weighted by |rx' - ry'|
+   (for a circle every rotation is right) *)
+Definition rot_ok (tol : bf) (n_rot : bf) (Q : ArcP bf) : bool :=
+  let d0 := sub N n_rot (a_rotation Q) in
+  let dr := babs (sub N (fst (a_radius Q)) (snd (a_radius Q))) in
+  let w (d : bf) := mul N (mul N (babs d) (div N (pi_ T) (bz 180))) dr in
+  existsb (fun k => bf_leb (w (add N d0 (bz k))) tol) [0; 180; -180; 360; -360]%Z.
+(* case: constructor arguments, op, size, relative tolerance, refused by the implementation,
          new arc's (start, stored radius, rotation, large, sweep, end), samples (t, point(t), X(arc).point(t)) *)
 Definition casety : Type :=
-  ((bf * bf) * (bf * bf) * bf * bool * bool * (bf * bf) * aop * bf * bool
+  ((bf * bf) * (bf * bf) * bf * bool * bool * (bf * bf) * aop * bf * bf * bool
    * ((bf * bf) * (bf * bf) * bf * bool * bool * (bf * bf))
    * list (bf * (bf * bf) * (bf * bf)))%type.
 Definition ok (c : casety) : nat :=
-  let '(start, radius, rot, large, sweep, end_, o, Sz, o_refused, o_new, samples) := c in
+  let '(start, radius, rot, large, sweep, end_, o, Sz, Tr, o_refused, o_new, samples) := c in
   let '(n_start, n_radius, n_rot, n_large, n_sweep, n_end) := o_new in
   let P0 := arc_init N T start radius rot large sweep end_ in
   match m_new o P0 with
@@ -501,11 +512,13 @@ Definition ok (c : casety) : nat :=
     if o_refused then 12 else
     if undecided P0 || undecided Q0 then 90 else
     let P := fixsnap P0 in let Q := fixsnap Q0 in
-    let tol := mul N e7 Sz in
+    let tol := mul N Tr Sz in
     first_fail
      [ (bcclose (mul N e11 Sz) n_start (a_start Q) && bcclose (mul N e11 Sz) n_end (a_end Q), 1);
-       (bcclose (mul N e7 (cabs1 (a_radius Q))) n_radius (a_radius Q), 2);
-       (bclose (mul N e11 (add N (bz 1) (babs (a_rotation Q)))) n_rot (a_rotation Q), 3);
+       (if is_AM o then bcclose tol n_radius (a_radius Q)
+        else bcclose (mul N e7 (cabs1 (a_radius Q))) n_radius (a_radius Q), 2);
+       (if is_AM o then rot_ok (mul N (bz 4) tol) n_rot Q
+        else bclose (mul N e11 (add N (bz 1) (babs (a_rotation Q)))) n_rot (a_rotation Q), 3);
        (Bool.eqb n_large (a_large Q) && Bool.eqb n_sweep (a_sweep Q), 4);
        (forallb (fun s => let '(t, o_pt, o_npt) := s in bcclose tol o_npt (arc_point N T Q t)) samples, 5);
        (forallb (fun s => let '(t, o_pt, o_npt) := s in bcclose tol o_npt (m_map o P (arc_point N T P t))) samples, 6);
@@ -546,12 +559,14 @@ ARC_CODES = {1: 'start/end of the new arc vs the model kernel', 2: 'stored radiu
              5: 'X(arc).point(t) vs Model/Arc.v point on the model\'s new arc',
              6: 'X(arc).point(t) vs map(model point(t))', 7: 'X(arc).point(t) vs map(arc.point(t))',
              10: 'model refuses (sx != sy) but the implementation returned an arc',
-             11: 'model assertion', 12: 'implementation refused but the model does not',
+             11: 'the model returns a Line (singular branch) or asserts', 12: 'implementation refused but the model does not',
              90: 'undecided (a branch of _parameterize within rounding of its threshold)'}
 
 
 def coq_op_b(op):
     k = op['op']
+    if k == 'transform':
+        return '(AM (%s))' % ', '.join('(%s, %s, %s)' % tuple(bf(x) for x in row) for row in op['M'])
     if k == 'translate': return '(AT %s)' % cbf(op['z0'])
     if k == 'rotate':
         return '(AR %s %s)' % (bf(op['degs']), 'None' if op['origin'] is None else '(Some %s)' % cbf(op['origin']))
@@ -660,6 +675,97 @@ def gen_path(rng):
     return specs, closed, mode
 
 
+def detect_arc_transform():
+    """which Arc branch of transform() the implementation runs: True = repaired (exact affine image
+    of the ellipse: Model/Xform.v arc_transform_fixed), False = pinned (eigen-decomposition of
+    invT.T Q invT; raises TypeError on numpy 2.x, wrong maths where it runs).  Probe: the witness W1 of
+    C10_arc_transform_refuted (det < 0, tf00*tf11 > 0) and W3 (rotated arc, non-uniform scale)."""
+    import numpy as np
+    from svgpathtools import Arc
+    from svgpathtools.path import transform
+    ok = 0
+    for arc, M in ((Arc(1 + 0j, 1 + 1j, 0.0, False, True, 1j), [[1.0, 2.0, 0.0], [1.0, 1.0, 0.0], [0.0, 0.0, 1.0]]),
+                   (Arc(0j, 3 + 1j, 45.0, False, True, 2 + 3j), [[2.0, 0.0, 0.0], [0.0, 1.0, 0.0], [0.0, 0.0, 1.0]])):
+        try:
+            new = transform(arc, np.array(M))
+        except TypeError:
+            return False
+        if not isinstance(new, Arc):
+            return None
+        good = True
+        for t in (0.0, 0.25, 0.5, 1.0):
+            p = complex(arc.point(t))
+            q = complex(M[0][0] * p.real + M[0][1] * p.imag + M[0][2], M[1][0] * p.real + M[1][1] * p.imag + M[1][2])
+            if abs(complex(new.point(t)) - q) > 1e-9 * 20:
+                good = False
+        ok += good
+    return True if ok == 2 else (False if ok == 0 else None)
+
+
+def gen_arc_tf_degenerate(rng, i, allow_singular=True):
+    """near-degenerate inputs of the repaired Arc branch: circles under rotations / uniform scales /
+    reflections (repeated eigenvalue of M.M^T: every rotation of the image is right), images that are
+    nearly circles, and nearly singular tf (condition number 1e2 .. 1e7)"""
+    fam = rng.choice(['circle-rot', 'circle-refl', 'circle-rand', 'to-circle', 'near-singular', 'near-singular',
+                      'shear', 'singular'])
+    if fam == 'singular' and not allow_singular:
+        fam = 'circle-rand'     # the pinned branch calls np.linalg.inv: LinAlgError, outside the quantifier
+    large, sweep = [(False, False), (False, True), (True, False), (True, True)][i % 4]
+    sc = 10 ** rng.uniform(-1, 2)
+    s, e = rnd(rng, sc), rnd(rng, sc)
+    if s == e:
+        e = s + 1
+    rot = rng.choice([0.0, 30.0, 90.0, rng.uniform(-360, 360)])
+    th = rng.uniform(-math.pi, math.pi)
+    R = [[math.cos(th), -math.sin(th)], [math.sin(th), math.cos(th)]]
+    if fam.startswith('circle') or fam == 'singular' or fam == 'shear':
+        rr = abs(s - e) / 2 * rng.choice([1.0, 1.5, 4.0, 0.5])
+        r = complex(rr, rr) if fam != 'shear' else complex(rr, rr * rng.uniform(0.2, 5))
+        if fam == 'circle-rot':
+            f = rng.choice([1.0, 1.0, 2.0, 0.5])
+            A = [[f * R[0][0], f * R[0][1]], [f * R[1][0], f * R[1][1]]]
+            if rng.random() < 0.4:
+                c, sn = rng.choice([(0.0, 1.0), (-1.0, 0.0), (0.0, -1.0), (0.6, 0.8)])
+                A = [[f * c, -f * sn], [f * sn, f * c]]
+        elif fam == 'circle-refl':
+            A = [[R[0][0], R[0][1]], [-R[1][0], -R[1][1]]]
+        elif fam == 'circle-rand':
+            A = [[rng.uniform(-3, 3), rng.uniform(-3, 3)], [rng.uniform(-3, 3), rng.uniform(-3, 3)]]
+            if abs(A[0][0] * A[1][1] - A[0][1] * A[1][0]) < 0.2:
+                A = [[1.0, 2.0], [1.0, 1.0]]
+        elif fam == 'shear':
+            k = rng.choice([0.5, -2.0, 10.0, 1e3])
+            A = [[1.0, k], [0.0, 1.0]] if rng.random() < 0.5 else [[1.0, 0.0], [k, 1.0]]
+        else:   # exactly singular (rank 1 or 0): the image is flat -> Line(new_start, new_end)
+            A = rng.choice([[[1.0, 2.0], [2.0, 4.0]], [[0.0, 0.0], [0.0, 0.0]], [[1.0, 0.0], [0.0, 0.0]],
+                            [[0.5, -1.5], [-1.0, 3.0]]])
+    else:
+        phi = math.radians(rot)
+        z = (s - e) / 2 * complex(math.cos(phi), -math.sin(phi))
+        ecc = rng.choice([2.0, 4.0, 8.0])
+        need = math.hypot(z.real, z.imag * ecc)
+        f = 10 ** rng.uniform(0.05, 0.8)
+        r = complex(need * f, need * f / ecc)
+        if fam == 'to-circle':
+            # undo the eccentricity in the arc's own frame: the image is (nearly) a circle
+            cp, sp = math.cos(phi), math.sin(phi)
+            D = [[1.0, 0.0], [0.0, ecc]]
+            Rm = [[cp, sp], [-sp, cp]]
+            B = [[sum(D[i][k] * Rm[k][j] for k in range(2)) for j in range(2)] for i in range(2)]
+            A = [[sum(R[i][k] * B[k][j] for k in range(2)) for j in range(2)] for i in range(2)]
+        else:
+            eps = 10 ** rng.uniform(-7, -2)
+            th2 = rng.uniform(-math.pi, math.pi)
+            V = [[math.cos(th2), -math.sin(th2)], [math.sin(th2), math.cos(th2)]]
+            D = [[rng.choice([1.0, 3.0]), 0.0], [0.0, eps * rng.choice([1, -1])]]
+            B = [[sum(D[i][k] * V[k][j] for k in range(2)) for j in range(2)] for i in range(2)]
+            A = [[sum(R[i][k] * B[k][j] for k in range(2)) for j in range(2)] for i in range(2)]
+    M = [[A[0][0], A[0][1], rng.choice([0.0, rng.uniform(-20, 20)])],
+         [A[1][0], A[1][1], rng.choice([0.0, rng.uniform(-20, 20)])], [0.0, 0.0, 1.0]]
+    return ('arc', (s, r, float(rot), large, sweep, e)), {'op': 'transform', 'M': M, 'mkind': 'degenerate-' + fam}, \
+        'arc-tf-' + fam
+
+
 def detect_closing_joint():
     """which joints() the implementation runs: False = the n-1 consecutive pairs (pinned code),
     True = the closing pair (s_{n-1}, s0) as well (what the docstring says).  Structural probe,
@@ -724,10 +830,20 @@ def run(rep, tier, seed, replay=None):
             'joints_closing_pair': cj,
             'applicable_closed_path_theorem': 'C10_closed_with_closing_joint (every kernel)' if cj else
             'C10_closed_preserved_local (translate/rotate/transform); scaled(): C10_scaled_closed_refuted'}
+        tfx = detect_arc_transform()
+        if tfx is None:
+            rep.violation('the Arc branch of transform() is neither the pinned nor the repaired variant of the model',
+                          {'kind': 'variant', 'probe': 'transform(Arc(1,1+1j,0,0,1,1j), [[1,2,0],[1,1,0],[0,0,1]]) and '
+                           'transform(Arc(0,3+1j,45,0,1,2+3j), diag(2,1,1)) against the point-wise images'},
+                          found_input=False, key='arc-transform-variant-unknown')
+            tfx = False
+        rep.cov['implementation_variants']['arc_transform'] = (
+            'repaired (exact affine image; theorem C10_arc_transform_partial)' if tfx else
+            'pinned (C10_arc_transform_refuted; TypeError on numpy 2.x)')
         okdef_path = OKDEF_PATH.replace('@CJ@', coq_bool(cj))
         okdef_f = OKDEF_F.replace('@CJ@', coq_bool(cj))
         quick = tier == 'quick'
-        n_bez, n_arc, n_path = (600, 240, 400) if quick else (12000, 4000, 8000)
+        n_bez, n_arc, n_path = (600, 240, 400) if quick else (12000, 3200, 8000)
         lost = [k for k in info['untranslated'] if k != 'gen_transform_Line']   # numpy matrix code: never in the subset
         if info['agree_failed'] or lost:
             n_bez *= 3; n_arc *= 2; n_path *= 2
@@ -762,6 +878,8 @@ def run(rep, tier, seed, replay=None):
             for i in range(n_arc):
                 a = gen_arc(rng, i)
                 seg_todo.append((('arc', a[:6]), gen_op(rng, arc=True), 'arc-' + a[6]))
+            for i in range(max(40, n_arc // 4)):
+                seg_todo.append(gen_arc_tf_degenerate(rng, i, allow_singular=tfx))
             for i in range(n_path):
                 specs, closed, mode = gen_path(rng)
                 path_todo.append((specs, closed, mode, gen_op(rng)))
@@ -779,6 +897,8 @@ def run(rep, tier, seed, replay=None):
         nontrivial = set()
         evals = 0
         n_arc_tf = 0
+        n_arc_singular = [0]
+        arc_tf_loose = {'eccentric': 0, 'acos-conditioning': 0}
         for spec, op, mode in seg_todo:
             kind = spec[0]
             dk = '%s/%s' % ('bez%d' % len(spec[1]) if kind == 'bez' else 'arc', op['op'])
@@ -856,12 +976,40 @@ def run(rep, tier, seed, replay=None):
                 size = (abs(seg.start) + abs(seg.end) + abs(seg.radius) + abs(seg.center) + ooff + 1.0) * onorm
                 origin_default = complex(seg.center)
             samples = []
+            tolrel = 1e-9 if kind == 'bez' else 1e-7
+            if kind == 'arc' and op['op'] == 'transform' and not is_identity(op):
+                M_ = op['M']
+                detA = M_[0][0] * M_[1][1] - M_[0][1] * M_[1][0]
+                if detA == 0:
+                    # singular tf: Line(new_start, new_end)
+                    evals += 1
+                    fm = float_map(op, None)
+                    if not (isinstance(new, Line) and abs(new.start - fm(seg.start)) <= 1e-12 * size
+                            and abs(new.end - fm(seg.end)) <= 1e-12 * size):
+                        viol('arc-transform-singular', 'transform(arc, singular tf) is not Line(tf.start, tf.end)', rj)
+                    else:
+                        n_arc_singular[0] += 1
+                    continue
+                if not isinstance(new, Arc):
+                    viol('class-changed', 'transform(arc, invertible tf) returned a %s' % type(new).__name__, rj)
+                    continue
+                if tfx:
+                    # what the float error analysis supports: 1e-9*size, unless the image is extremely
+                    # eccentric (the constructor divides the half chord by ry': measured error <= 4e-18*rx'/ry' relative to size)
+                    # or an end point of either arc sits within ~1e-7 rad of an axis extreme of its ellipse
+                    # (theta, delta come from acos near +-1: error eps/|sin|, at worst sqrt(eps))
+                    kap = max(new.radius.real / new.radius.imag, new.radius.imag / new.radius.real)
+                    sinmin = min(abs(math.sin(math.radians(a.theta))) for a in (seg, new))
+                    sinmin = min([sinmin] + [abs(math.sin(math.radians(a.theta + a.delta))) for a in (seg, new)])
+                    tolrel = max(1e-9, 2e-17 * kap, 3e-16 / max(sinmin, 1.5e-8))
+                    if tolrel > 1e-9:
+                        arc_tf_loose['eccentric' if 2e-17 * kap >= tolrel else 'acos-conditioning'] += 1
             if not refused:
                 if type(new) is not type(seg) and not (kind == 'arc' and op['op'] == 'transform'):
                     viol('class-changed', 'the operation returned a %s for a %s' % (type(new).__name__, type(seg).__name__), rj)
                     continue
                 fmap = float_map(op, origin_default)
-                tolf = (1e-9 if kind == 'bez' else 1e-7) * size
+                tolf = tolrel * size
                 worst = 0.0
                 for t in ts:
                     p0, p1 = complex(seg.point(t)), complex(new.point(t))
@@ -873,7 +1021,7 @@ def run(rep, tier, seed, replay=None):
                         worst = max(worst, err)
                 if worst > 0:
                     key = '%s-%s-point' % ('bez' if kind == 'bez' else 'arc', op['op'])
-                    if kind == 'arc' and op['op'] == 'transform':
+                    if kind == 'arc' and op['op'] == 'transform' and not tfx:
                         key = 'arc-transform-wrong'
                     viol(key, 'X(seg).point(t) differs from the map applied to seg.point(t) by %.3g (> %.3g)'
                          % (worst, tolf), dict(rj, error=worst, tol=tolf))
@@ -888,16 +1036,16 @@ def run(rep, tier, seed, replay=None):
                     coq_list(['(%s, %s, %s)' % (qc(t), cq(a), cq(b)) for t, a, b in samples]),
                     coq_bool(new is seg))
                 bez_cases.append(term); bez_meta.append((spec, op, rj))
-            elif op['op'] != 'transform':
+            elif op['op'] != 'transform' or (tfx and not is_identity(op)):
                 s, r, rot, la, sw, e = spec[1]
                 if refused:
                     newargs = '(%s, %s, %s, false, false, %s)' % (cbf(0j), cbf(0j), bf(0.0), cbf(0j))
                 else:
                     newargs = '(%s, %s, %s, %s, %s, %s)' % (cbf(new.start), cbf(new.radius), bf(new.rotation),
                                                              coq_bool(new.large_arc), coq_bool(new.sweep), cbf(new.end))
-                term = '(%s, %s, %s, %s, %s, %s, %s, %s, %s, %s, %s)' % (
+                term = '(%s, %s, %s, %s, %s, %s, %s, %s, %s, %s, %s, %s)' % (
                     cbf(s), cbf(r), bf(rot), coq_bool(la), coq_bool(sw), cbf(e), coq_op_b(op), bf(float(size)),
-                    coq_bool(refused), newargs,
+                    bf(float(tolrel)), coq_bool(refused), newargs,
                     coq_list(['(%s, %s, %s)' % (bf(t), cbf(a), cbf(b)) for t, a, b in samples]))
                 arc_cases.append(term); arc_meta.append((spec, op, rj))
             elif is_identity(op):
@@ -922,7 +1070,7 @@ def run(rep, tier, seed, replay=None):
                     ', '.join(spec_py(s) for s in specs),
                     'p[-1].end = p[0].start' if hist == 'end' else 'p[0].start = p[-1].end', op_py(op))
             has_arc = any(s[0] == 'arc' for s in specs)
-            if has_arc and op['op'] == 'transform' and not is_identity(op):
+            if has_arc and op['op'] == 'transform' and not is_identity(op) and not tfx:
                 op = {'op': 'translate', 'z0': complex(op['M'][0][2], op['M'][1][2])}   # arc transform: see segment cases
                 rj['opspec'] = op_json(op); rj['python'] = 'Path(...)' + op_py(op)
             if has_arc and op['op'] == 'scale' and op['sy'] is not None and op['sy'] != op['sx']:
@@ -1092,6 +1240,9 @@ def run(rep, tier, seed, replay=None):
         rep.cov['distinct_nontrivial'] = len(nontrivial)
         rep.cov['undecided_arc_cases'] = undecided
         rep.cov['arc_transform_cases_raising_typeerror'] = n_arc_tf
+        rep.cov['arc_transform_singular_tf_lines'] = n_arc_singular[0]
+        rep.cov['arc_transform_cases_with_tolerance_above_1e-9'] = dict(
+            arc_tf_loose, rule='tolerance = size*max(1e-9, 2e-17*rx\'/ry\', 3e-16/max(min|sin(end angles)|, 1.5e-8))')
         rep.cov['closed_paths'] = {'%s/%s' % k: {'closed_before': v[0], 'unclosed_after': v[1]}
                                    for k, v in sorted(closed_stats.items())}
         rep.cov['rule'] = ('segments: Line/Quadratic/Cubic from point pools, arcs (ample / auto-scaled / integer radii); '
